@@ -22,7 +22,8 @@ prop("C01", "other", "static sibling-agreement analysis: wire-shape regular lang
      "arm); raw-copy paths are only equal to the field-wise paths where the Packed decision is sound (P2). Value equality is not decided.",
      "Rules W1 (≈92 library impl pairs), W4 (container header), W5 (derived impls of ≈300 corpus definitions vs the documented model), "
      "W6 (field flow), P2/P3 (Packed decision vs rustc layout; raw events guarded), W2 (hand-written tag tables are inverse maps), "
-     "W11 (primitive values travel unmodified), W13 (k-th written component flows back into the component it came from), W14 (sequences "
+     "W11 (primitive values travel unmodified), W13 (k-th written component flows back into the component it came from), W16 (the element "
+     "count written is len() of the whole container whose elements follow), P7 (no cached Packed decision), W14 (sequences "
      "are written and rebuilt in container order), T4 (a capacity-checked length is rejected only above the capacity), CB (the witness "
      "corpus still compiles). Each obligation is one impl pair / corpus definition checked over all version classes and guard "
      "assignments by NFA containment with minterm-refined tag alphabets.",
@@ -35,7 +36,7 @@ prop("C02", "other", "static conformance check: writer wire languages vs a froze
      "hand-reviewed specification of the documented format (widths, little endian, u64 lengths, tag values, field order, discriminant = "
      "variant index in the documented width). A change applied consistently to writer and reader is reported although round trips still pass.",
      "Rules W3 (spec/wire_spec.json: 96 writers incl. header, language equality modulo expansion of nested values), W4, W5 (corpus model), "
-     "W2, W11, W13, W14 (tag tables, unmodified primitives, component order, sequence order).",
+     "W2, W11, W13, W14, W16 (tag tables, unmodified primitives, component order, sequence order, count = container length), P3.",
      ["iteration order of hash containers and byteorder's numeric encoding are trusted",
       "a byte sink idiom the classifier does not know yields 'undecided', never an alarm"],
      "conformance of the writer's shape; the byte values of primitives are byteorder's", "DESIGN.md §3 C02, Appendix A")
@@ -53,8 +54,9 @@ prop("C04", "translation_validation", "three-valued evaluation of the pure Packe
      "(a) whenever repr_c_optimization_safe(v) can answer yes for a corpus type, rustc's layout of that type is byte-identical to its "
      "field-by-field encoding at v; (b) every raw memory event of every library and derived impl is only reachable under the Packed guard "
      "(or an adjacency guard that the layout confirms); (c) writer and reader branch on the same guard (W1 over guard assignments).",
-     "Rules P2 (decision ⇒ PackedOK for ≈300 corpus types × versions), P3 (raw events guarded, all impls), W1/W5 over both guard values.",
-     ["tuple and nalgebra packedness (memoffset pointer arithmetic) are undecided", "equality of loaded values between the two paths follows from (a)+(b)+W1 and is not separately observed"],
+     "Rules P2 (decision ⇒ PackedOK for ≈320 corpus types × versions, tuple impls folded concretely from rustc's layout constants), P3 "
+     "(raw events guarded, all impls), P7 (the decision is never cached across versions), W1/W5 over both guard values.",
+     ["nalgebra packedness is undecided", "equality of loaded values between the two paths follows from (a)+(b)+W1 and is not separately observed"],
      "decision soundness relative to the compiler's own layout tables on this target", "DESIGN.md §3 C04")
 
 prop("C05", "other", "static comparison-table extraction (which access paths are compared, with which polarity) + container shape",
@@ -75,7 +77,8 @@ prop("C06", "other", "static interval/taint analysis of values read from the str
      "unwrapped (I3); types with restricted bit patterns are never bulk-copyable (P5, three known findings).",
      "Rules T1 (interval analysis per reader function), T2, T3 (spec/panic_sites.json), T4 (capacity guards inclusive), T5 (BitVec: accepted "
      "bit count ≤ allocated storage bits, finite-domain evaluation), T6 (initialisation typestate of element-wise filled "
-     "[MaybeUninit<T>; N] buffers, including error clean-up inside the fill loop), I3, P5.",
+     "[MaybeUninit<T>; N] buffers, including error clean-up inside the fill loop and counted drop guards), I3, I8 (no Err swallowed by flat_map/"
+     "flatten/filter_map), P5.",
      ["trusted lengths/offsets are ≤ isize::MAX and element sizes < 2^31", "panics inside third-party crates, stack exhaustion and OOM are not decided"],
      "absence of the enumerated defect classes on all paths, not absence of all panics", "DESIGN.md §3 C06, Appendix C")
 
@@ -102,7 +105,7 @@ prop("C08", "other", "static error/exact-write discipline and typestate rules ov
 prop("C11", "other", "static comparison-table extraction for Schema::layout_compatible",
      "layout_compatible answers yes only if size, alignment, every field offset, discriminant width and values, collection layouts are "
      "known on both sides and equal, recursively; Option/Custom/closures and mismatched variants answer no.",
-     "Rules Q3 (40 table obligations incl. the two shortcut clauses), P6 (derived schemas claim an explicit repr only when the recorded "
+     "Rules Q3 (40 table obligations incl. the two shortcut clauses; alternative-sensitive), N7, M7, P6 (derived schemas claim an explicit repr only when the recorded "
      "discriminants are the in-memory values), M1/M2/M4/M5 (the four schemas handed to arg_layout_compatible originate from the two "
      "sides' effective and native definitions of the same method and argument; the mask is per method), X3 (layout facts enter a schema "
      "only through the unsafe constructor).",
@@ -112,7 +115,7 @@ prop("C11", "other", "static comparison-table extraction for Schema::layout_comp
 prop("C12", "other", "schema constructor trees read off THIR, translated to the language a schema-driven reader parses, containment writer ⊆ schema",
      "For every library type with a literal schema constructor tree the language its writer emits is contained in the language described "
      "by its schema; recursion guards name the type whose schema they wrap.",
-     "Rules W7 (≈90 library types), W7d (derived schemas of the corpus vs the derived writers, field-wise and raw path, per version), W10 "
+     "Rules P2 and W16 (necessary on the raw path / for counts), W7 (≈90 library types), W7d (derived schemas of the corpus vs the derived writers, field-wise and raw path, per version), W10 "
      "(20 recursion guards). Known findings: SocketAddr, Result, HashMap/IndexMap guards, BitVec/BitSet, retyped field written at an older "
      "version, enum discriminant recorded as u8.",
      ["run-time dependent parts of a schema (Vec/String layout probes) are not decided; BitVec/BitSet are undecided (raw storage slice)"],
@@ -135,7 +138,9 @@ prop("C14", "other", "static necessary conditions in savefile's AEAD wrapper (re
      "occupies its own slot of the 12-byte nonce (K5, constant folding of the array construction); the nonce header written is the one "
      "read (W4); every copy-out of the decrypt buffer advances the offset by what it returns (K4); the load demands the end of the "
      "compressed stream so that no trailing chunk is optional (K7). The cryptographic guarantee itself is ring's.",
-     "Rules I3 (crypto module), K3, K4, K5, K7, K8 (a record is written only while unwritten plaintext remains: no optional records), W4.",
+     "Rules I3 (crypto module), K3, K4, K5, K7, K8 (a record is written only while unwritten plaintext remains: no optional records), K9 (the "
+     "unauthenticated chunk length is used as read and rejected when out of range, never clamped), T3 (panic-site inventory incl. slice range "
+     "indexing on the load path), W4.",
      ["that modification of nonce/length/ciphertext/tag is detected is ring's AES-256-GCM and is not decided here"],
      "necessary conditions only", "DESIGN.md §3 C14")
 
@@ -164,7 +169,8 @@ prop("C17", "other", "static classification of introspect_child / introspect_len
      "from the same container (S1). total_index: on every acyclic path of total_index_impl a frame that yields no element advances the "
      "flat cursor by exactly len(frame.keyvals) - the amount do_introspect adds to total_len - and a returned element is "
      "keyvals[index - cursor on entry - advance of the expanded sub-tree] (S3).",
-     "Rules S1 (404 impls), S3 (6 path obligations), S4 (every unwrap in dive / do_introspect / total_index is justified by a typestate argument: "
+     "Rules S1 (411 impls; containers, state-dependent None), S3 (16 obligations: conservation, element index, no underflow by induction on "
+     "index >= cursor, no overflow of sums involving the caller's index), S4 (every unwrap in dive / do_introspect / total_index is justified by a typestate argument: "
      "take-once guard, push before last/pop).",
      ["index arithmetic and slice indexing in the navigation code (no underflow / in bounds) rest on data-structure invariants across calls and are not decided"],
      "child-count consistency and flat-index accounting", "DESIGN.md §3 C17")
@@ -184,7 +190,8 @@ prop("C09", "translation_validation", "translation validation of generated ABI t
      "code runs only inside catch_unwind (A1) and both panic payload kinds are forwarded (A2).",
      "Rules W9 (≈40 methods × mask assignments, with ownership events), A1, A2, A3 (ownership pairing of boxed arguments), A6 "
      "((pointer, length) pairs passed across the boundary: the length is len() of the same object), N5, N6 (generated closure/future helper "
-     "interfaces carry the enclosing interface's version), M5 (compatibility mask is initialised per method), M6 (argument limit = mask width).",
+     "interfaces carry the enclosing interface's version), A7 (a panic message pointer never outlives the payload it points into), A8 (fixed-size "
+     "message buffers hold the longest message of the method), M5 (compatibility mask is initialised per method), M6 (argument limit = mask width).",
      ["equality of observed values, drop counts at run time and post-panic usability are not decided"],
      "mirror-image property of generated code on the corpus; the runtime effect is not observed", "DESIGN.md §3 C09")
 
@@ -194,7 +201,7 @@ prop("C10", "translation_validation", "value-origin analysis of the version labe
      "it was called with; the caller decodes the reply with the reply header's version (N3). Negotiation takes min(own, callee) (N1); a "
      "method missing in the implementation panics at call time, after a successful match of its number (N4); signature changes are "
      "rejected by the definition comparison (Q4); trampolines agree at every mask assignment (W9).",
-     "Rules N3 (every corpus trait and method), N1, N4, N5, N6, W9, Q4, M1/M2/M4 (which definitions are compared during negotiation), and "
+     "Rules N3 (every corpus trait and method), N1, N4, N5, N6, N7 (which definition is handed to analyze_and_create in which position, with branch conditions), M7, Q3, W9, Q4, M1/M2/M4 (which definitions are compared during negotiation), and "
      "H2/W5/P2 on the evolution histories (an argument type written at the effective version has that version's layout).",
      ["values are not decided; interface families are the enumerated ones"],
      "origin of version values in generated code", "DESIGN.md §3 C10")
